@@ -1015,9 +1015,6 @@ func (a *attrsBitmap) isSet(b uint8) bool {
 }
 
 func (s *UpdateDecoder[T]) decodePathAttrs(t T, b []byte, hasNLRI bool) error {
-	if len(b) < 1 {
-		return nil
-	}
 	var me error
 	var notif *Notification
 	var attrsSeen attrsBitmap
